@@ -186,7 +186,7 @@ def work(arg):
 
 
 def run(ctx):
-    depth = 2 if ctx.tier == "quick" else 3
+    depth = 2 if ctx.tier == "quick" else (4 if ctx.deep else 3)
     hists = histories(depth)
     tg = targets(ctx)
     jobs = []
